@@ -129,6 +129,7 @@ func checkC18(c *fw.Ctx) {
 	checkF7(c)
 	checkF8(c)
 	checkF9(c)
+	checkF10(c)
 	// a v12 event must stay a v12 event: an eventV2 copy of it panics in RoomID() (shared with C03.9)
 	checkDerivedTypePreserved(c)
 }
